@@ -19,6 +19,7 @@ RULE = ('Hypothesis point sets (2-40 points) from labelled families: clusters, s
         'numbering, multiplicity, first, next-walk, tail entries.  Non-trivial = a group of size >=3 spread over >=2 chunks, '
         'or a group straddling the seam or within 5 deg of a pole.')
 RULE += '  Also: linking lengths 1e-7 .. 87 deg and exactly 0 (bit-identical positions), points exactly on / 1 ulp from a pole, slice-edge family, wide strips with > 32767 RA chunks, integer coordinate arrays.'
+RULE += ' Round 5: RA exactly 360.0.'
 ASSUMPTIONS = ['chunksize >= 4 x linking length is enforced by spheregroup itself; the generator also bounds the grid to <= 2e4 cells',
                'separations within 1e-7 relative of the linking length may link or not',
                '|Dec| <= 90 including points exactly on a pole (families pole-exact / pole-near), RA in [0,360] (360.0 itself is generated: the same meridian as 0)', 'linking lengths from 1e-7 deg (sub-milliarcsecond) up; the reference separations are exact to ~1e-16 rad, i.e. 1e-7 relative at 1e-7 deg, inside the band']
